@@ -39,6 +39,16 @@ pub struct Body {
 }
 
 pub const WATCHDOG_CPU_NS: u64 = 10_000_000_000;
+/// prefix of the `run_one` error for a child that stalled in wall-clock time only: inconclusive, never a verdict
+pub const STALL: &str = "STALL";
+
+/// a stalled confirmation run decides nothing: stop with the inconclusive exit status
+pub fn exit_if_stalled(id: &str, msg: &str) {
+    if msg.starts_with(STALL) {
+        eprintln!("{id} inconclusive: {msg}");
+        std::process::exit(2);
+    }
+}
 
 static CASE_START_CPU: AtomicU64 = AtomicU64::new(u64::MAX);
 static CASE_INDEX: AtomicU64 = AtomicU64::new(0);
@@ -285,7 +295,7 @@ pub fn run_one(kind: &str, case_json: &str) -> Result<CaseReport, String> {
             Ok(None) if t0.elapsed() > Duration::from_secs(60) => {
                 let _ = child.kill();
                 let _ = child.wait();
-                return Err("process still running after 60 s (killed)".into());
+                return Err(format!("{STALL}: process still running after 60 s of wall-clock time without using up its CPU budget (killed)"));
             }
             Ok(None) => std::thread::sleep(Duration::from_millis(2)),
             Err(e) => return Err(format!("wait: {e}")),
